@@ -149,7 +149,7 @@ def atlas_body_docs():
                   "kind": {"$ref": REF + "Color"}, "tags": arr({"type": "string"}), "meta": {"$ref": REF + "Other"}, "ratio": {"type": "number"},
                   "ref_or_text": {"oneOf": [{"type": "integer"}, {"type": "string"}]}, "maybe_note": any_of({"type": "string"}, NULL),
                   "stamp": {"type": "string", "format": "date-time"}, "uid": {"type": "string", "format": "uuid"}, "lvl": any_of({"$ref": REF + "Level"}, NULL),
-                  "attachment": {"type": "string", "format": "binary"}},
+                  "attachment": {"type": "string", "format": "binary"}, "form_kind": {"const": "upload"}, "form_version": {"const": 7}},
                  required=["title", "count"])
     nullfirst = obj({"a": {"anyOf": [NULL, {"type": "string"}]}, "b": any_of({"type": "string"}, NULL)}, required=["a", "b"])
     extra = {"components": {"requestBodies": {"ItemBody": {"content": {"application/json": {"schema": {"$ref": REF + "Item"}}}, "required": True},
